@@ -320,7 +320,7 @@ func comps(name string) [][]string {
 	return out
 }
 
-const compChars = "abcxyz0123456789-_.+"
+const compChars = "abcxyzABX0123456789-_.+"
 
 func randComp(r *rand.Rand) string {
 	for {
